@@ -19,6 +19,8 @@ SERVER = ["json_server_str", "json_server_slice", "json_server_reader", "smile_s
           "smile_server_mut_slice"]
 CLIENT = ["json_client_str", "json_client_slice", "json_client_reader", "smile_client_slice", "smile_client_reader",
           "smile_client_mut_slice"]
+# the object at the end of the path: two declared fields (twice as often), none, one
+SHAPES = ["struct", "struct0", "struct", "struct1"]
 STEPS = ["some", "newtype_struct", "newtype_variant", "seq_elem", "tuple_elem", "tuple_struct_field",
          "tuple_variant_field", "map_value", "struct_field", "struct_variant_field"]
 
@@ -73,7 +75,7 @@ def run(tier, seed):
     if not rm.violated:
         raise vc.ToolError("spec self-test failed: a deserializer without one re-wrap passes all invariants")
     vc.log("[tlc] %d states, %d struct paths" % (states, len(cases)))
-    docs, meta = [], {}
+    docs, meta, shapes = [], {}, {}
     seen = set()
     k = 0
     for ci, c in enumerate(cases):
@@ -86,7 +88,8 @@ def run(tier, seed):
         for names, payload in combos:
             cid = "c%d" % k
             k += 1
-            docs.append(json.dumps({"id": cid, "path": c["path"], "names": names, "payload": payload, "seed": seed + k}))
+            docs.append(json.dumps({"id": cid, "path": c["path"], "names": names, "payload": payload, "seed": seed + k, "shape": SHAPES[len(docs) % 4]}))
+            shapes[cid] = SHAPES[(len(docs) - 1) % 4]
             meta[cid] = (c["path"], names, payload)
     # deep random paths (I->S style: seeded random, beyond the exhaustive bound)
     ndeep = 1500 if tier == "quick" else 15000
@@ -94,7 +97,8 @@ def run(tier, seed):
         path = [rng.choice(STEPS) for _ in range(4 + rng.below(5))]
         names, payload = rng.choice(NAMESETS), rng.choice(PAYLOADS)
         cid = "d%d" % j
-        docs.append(json.dumps({"id": cid, "path": path, "names": names, "payload": payload, "seed": seed * 31 + j}))
+        docs.append(json.dumps({"id": cid, "path": path, "names": names, "payload": payload, "seed": seed * 31 + j, "shape": SHAPES[j % 4]}))
+        shapes[cid] = SHAPES[j % 4]
         meta[cid] = (path, names, payload)
     text = vc.harness_parallel("vh", ["serde", "c05"], docs, nproc=6)
     replayed = 0
@@ -103,7 +107,7 @@ def run(tier, seed):
     for obs in vc.ndjson(text):
         path, names, payload = meta[obs["id"]]
         replayed += 1
-        judge(path, names, obs, out, {"path": path, "names": names, "payload": payload})
+        judge(path, names, obs, out, {"path": path, "names": names, "payload": payload, "shape": shapes[obs["id"]]})
         if path:
             nontrivial.add((tuple(path), tuple(names), json.dumps(payload)))
         if len(samples) < 3 and len(path) == 3 and "doc" in obs:
@@ -126,7 +130,7 @@ def run(tier, seed):
 def replay(path, seed):
     rep = json.load(open(path))["case"]
     obs = vc.ndjson(vc.harness("vh", ["serde", "c05"], stdin=json.dumps({"id": "r", "path": rep["path"], "names": rep["names"],
-                                                                         "payload": rep["payload"], "seed": seed}) + "\n"))[0]
+                                                                         "payload": rep["payload"], "seed": seed, "shape": rep.get("shape", "struct")}) + "\n"))[0]
     out = vc.Outcome(PID, "quick", seed, "model_checking")
     judge(rep["path"], rep["names"], obs, out, rep)
     print(json.dumps(obs)[:1500])
